@@ -37,7 +37,13 @@ LEAN_MODULES = ["LunaVerif.Props.C20", "LunaVerif.Lemmas.C20CycAbs", "LunaVerif.
                 # ... wired into the closed device as the rest slot: restHolds becomes a theorem
                 "LunaVerif.Lemmas.C20DeviceCtl", "LunaVerif.Lemmas.C20DeviceCtlExamples",
                 # ... and with the setup decoder's FSM + deserializer (C06 decStep / deserStep) on the shared tokenizer/timer/CRC
-                "LunaVerif.Lemmas.C20DeviceDec", "LunaVerif.Lemmas.C20DeviceDecExamples", "LunaVerif.Lemmas.C20DeviceDecAck"]
+                "LunaVerif.Lemmas.C20DeviceDec", "LunaVerif.Lemmas.C20DeviceDecExamples", "LunaVerif.Lemmas.C20DeviceDecAck",
+                # ... the decoder's ACK clause and 'received' clause of decHolds' proved (deserializer / receiver lock-step
+                # with equal CRC16 checks, decoder DELAY <=> receiver DELAY)
+                "LunaVerif.Lemmas.C20DeserRx", "LunaVerif.Lemmas.C20DeviceDecInv",
+                "LunaVerif.Lemmas.C20DeviceDecInvExamples",
+                # ... and with the handshake detector (C04 Det.step): 'no host ACK while the control slot is busy' proved
+                "LunaVerif.Lemmas.C20DeviceDet", "LunaVerif.Lemmas.C20DeviceDetExamples"]
 DRIVER = "Driver/C20.lean"
 REQUIRED_THEOREMS = ["mux_single_source", "generator_idle_unless_stream_valid", "handshake_idle_unless_requested",
                      "every_response_is_handshake_or_crc_valid_data", "response_only_after_addressed_token_or_data",
@@ -61,7 +67,13 @@ REQUIRED_THEOREMS = ["mux_single_source", "generator_idle_unless_stream_valid", 
                      # setup decoder FSM + deserializer composed in
                      "deser_new", "dec_regs", "dec_received_origin", "tok_facts", "decHolds_of_dec",
                      "dec_ack_origin", "dec_ack_tx_allowed", "dec_closed_tx_never_during_rx",
-                     "dec_closed_transmitters_exclusive", "dec_closed_tx_only_in_response_window"]
+                     "dec_closed_transmitters_exclusive", "dec_closed_tx_only_in_response_window",
+                     # decoder ACK = receiver's pulse, no 'received' in an open window: no longer assumed
+                     "dr_step", "dr_new8", "dj_step", "decHolds'_of_dec", "dec2_closed_tx_never_during_rx",
+                     "dec2_closed_transmitters_exclusive", "dec2_closed_tx_only_in_response_window",
+                     # handshake detector composed in: handshakes_in.ack no longer an input
+                     "det_facts", "decHolds2_of_det", "det_closed_tx_never_during_rx",
+                     "det_closed_transmitters_exclusive", "det_closed_tx_only_in_response_window"]
 RULE = ("cases = 'mux' (number of inputs x random valid/data patterns, one-hot and overlapping) and 'full' (descriptor set, "
         "endpoint set {bulk IN, bulk OUT, status}, extra handlers) x adaptive LegalHost script (control transfers, bulk IN "
         "with lost/corrupted handshakes and retries, bulk OUT with retransmissions / overflow / PING, status polls, "
@@ -96,6 +108,25 @@ ASSUMPTIONS = dev_ctl.ASSUMPTIONS + [
     "the decoder's ack only together with the receiver's ready_for_response while the tokenizer shows SETUP, no received and no "
     "forwarded host ACK while the control slot is armed or sending, the start_position clause, reset sequencer silent; "
     "full speed (hs = false) in the evaluated example",
+    "closed device with control endpoint, setup decoder (dec2_closed_tx_never_during_rx; Lemmas/C20DeviceDecInv.lean): hostOk as "
+    "above; decoder configured for full / low speed (hs = false: at high speed the decoder ACKs without waiting for the "
+    "timer); decHolds2 = a decidable predicate evaluated along the run, per cycle: no handshakes_in.ack forwarded to the "
+    "request handlers while the control slot is armed or sending, the start_position clause, the reset sequencer does not "
+    "transmit, utmi.rx_data < 256 (an 8-bit signal). The decoder's ACK timing, the 'received' timing, timer.start and the "
+    "stability of setup.type are no longer assumed",
+    "closed device with control endpoint, setup decoder AND handshake detector (det_closed_tx_never_during_rx, "
+    "det_closed_transmitters_exclusive, det_closed_tx_only_in_response_window; Lemmas/C20DeviceDet.lean) - the weakest "
+    "hypothesis set: (1) hostHolds = in every cycle hostOk: rx_active is low while the response window is open (ghost "
+    "automaton Win over bus-visible events: opened by the end of an IN/PING token the token detector accepted or of a data "
+    "packet with a good CRC16, kept open while the device transmits, closed T+1 cycles after the soliciting packet if no "
+    "answer started) and rx_valid only while rx_active - this covers host handshakes: a legal half-duplex host never sends "
+    "a handshake while the device's response window is open; (2) decHolds3 = a decidable predicate evaluated along the run, "
+    "per cycle: (e) LEGAL HOST: whenever the block descriptor handler is in START, the handler's start_position (max_packet_size x number "
+    "of data-stage packets the host has ACKed, mod 2048) is < 2^posW = the range of position_in_stream, i.e. the host does not ask "
+    "for more descriptor data after the short / last packet; (f) RESET SEQUENCER SILENT: reset_sequencer.tx.valid = 0 (no "
+    "chirp in the history); utmi.rx_data < 256; (3) configuration: timers strobe at the speed, delay + L + 2 < T, 3 <= L, "
+    "the four endpoint numbers differ as stated, decoder speed full / low (hs = false). handshakes_in.ack, received, "
+    "setup_decoder.ack, the SetupPacket registers and timer.start are computed by the composed models, not assumed",
 ]
 PARTIAL = ("Proved: the transaction-level theorems for every state and event of the event-level model (tied to the real device "
            "event by event), and at the cycle level 'tx_valid implies not rx_active', 'tx_valid only inside a response window', "
@@ -138,16 +169,25 @@ PARTIAL = ("Proved: the transaction-level theorems for every state and event of 
            "decoder's timer.start only in the cycle after a reception ended = E4; setup.type changes only together with the "
            "received strobe; received is visible only while the tokenizer shows SETUP - the token detector is idle after the "
            "cycle without rx_active and keeps its pid over that edge), giving dec_closed_tx_never_during_rx / _transmitters_exclusive / _tx_only_in_response_window "
-           "under hostHolds + decHolds'. STILL ASSUMED (decHolds', see ASSUMPTIONS) and NOT proved: the decoder's ACK "
-           "coincides with the receiver's ready_for_response while the tokenizer still shows SETUP (proved of it: "
-           "dec_ack_origin / dec_ack_tx_allowed - at full speed the ACK is driven only when tx_allowed of the shared timer "
-           "holds, in READ_DATA for an 8-byte new_packet under a SETUP pid or in DELAY); "
-           "no received inside an open response window (these two need the joint invariant "
-           "'decoder in DELAY <=> receiver in its inter-packet DELAY', the lock-step of the deserializer with the token "
-           "detector, and the equality of the deserializer's and the receiver's CRC16 checks); no host ACK "
-           "(handshakes_in.ack) inside an open response window (the handshake detector is not part of DevCyc); the "
-           "start_position clause is a legal-host assumption; reset sequencer silent. All of them are what the "
-           "slot-contract columns of the 'cyc' cases check on the real control endpoint in every co-simulated cycle; "
+           "under hostHolds + decHolds'. The decoder's ACK clause and 'received' clause are now PROVED as well "
+           "(Lemmas/C20DeserRx.lean, C20DeviceDecInv.lean; full / low speed): the deserializer and the receiver parse in "
+           "lock-step and their CRC16 checks decide the same (DeserRx.DR, dr_step, dr_new8: equal last_word / data_pipeline, "
+           "last_word_crc, last_byte_crc from the second payload byte on, both read the shared CRC unit); joint invariant DJ "
+           "(dj_step): a new_packet of length 8 finds the receiver entering its inter-packet DELAY with the shared counter "
+           "at 0, so READ_DATA never ACKs directly (tx_allowed needs counter = delay >= 1); the decoder is in DELAY only "
+           "while the receiver is, with counter <= delay and the token detector's pid still SETUP, so its ACK IS the "
+           "receiver's ready_for_response; new_packet / received find the control slot idle and no pulse in between "
+           "(decHolds'_of_dec, dec2_closed_* under hostHolds + decHolds2). With the handshake detector (C04 Det.step) "
+           "composed in as device.py connects it (Lemmas/C20DeviceDet.lean) 'no host ACK forwarded while the control slot is "
+           "armed or sending' follows from hostOk too (the detector strobes ack in the cycle after rx_active fell, when "
+           "the window was closed and nothing is owed): det_closed_tx_never_during_rx / _transmitters_exclusive / "
+           "_tx_only_in_response_window hold under hostHolds + decHolds3, where decHolds3 is only: (e) the legal-host "
+           "clause on start_position, (f) reset sequencer silent, rx_data < 256. STILL ASSUMED / NOT proved: (e) and (f) "
+           "are environment assumptions (see ASSUMPTIONS); kernel-evaluated necessity examples: hs = true makes the decoder "
+           "ACK three cycles before the receiver's pulse. The slot-contract columns of the 'cyc' cases keep checking the "
+           "control endpoint's contract on the real gateware in every co-simulated cycle; the wiring of DevCtl / DevDec / "
+           "DevDet (ctlIn, drvOf, decCycle, xOf, xIn) is read off device.py / control.py / request.py, not co-simulated as a "
+           "whole (the parts are); "
            "the closed-loop "
            "WIRING of the endpoint models (Lemmas/C20Device.lean, read off stream.py/status.py/endpoint.py) is not itself "
            "co-simulated as a whole - each "
